@@ -81,7 +81,11 @@ func genSpec(cfg Config) *rapid.Generator[spec] {
 		case k < 75:
 			s.Kind = "dir"
 		case k < 97 && cfg.Special:
-			s.Kind = rapid.SampledFrom([]string{"fifo", "socket"}).Draw(t, "special")
+			if cfg.Unpriv {
+				s.Kind = rapid.SampledFrom([]string{"fifo", "socket"}).Draw(t, "special")
+			} else {
+				s.Kind = rapid.SampledFrom([]string{"fifo", "socket", "chardev"}).Draw(t, "special")
+			}
 		default:
 			s.Kind = "file"
 		}
@@ -377,7 +381,7 @@ func Describe(tr fsx.Tree) Features {
 			if strings.Contains(n.Target, "{R}") || strings.Contains(n.Target, "ext") || strings.Contains(n.Target, "src-evil") {
 				f.OutLink = true
 			}
-		case "fifo", "socket":
+		case "fifo", "socket", "chardev":
 			f.Special = true
 		}
 		if n.Nsec != 0 {
